@@ -5,7 +5,7 @@
    [H] is any hash function with 32-byte output; [reach H sc S ss]: the session
    state [ss] is reached by trie.New on store [S] (scheme [sc]) followed by ANY
    history of Update / Delete / Get. *)
-From GV Require Import Lib.Tactics Trie.Node Trie.Ops Trie.Hash Trie.Commit Trie.CommitProofs.
+From GV Require Import Lib.Tactics Trie.Node Trie.Ops Trie.Hash Trie.Commit Trie.CommitProofs Trie.CommitTracer.
 Local Open Scope N_scope.
 
 (* the returned root is Trie.Hash() of the in-memory trie; for a short/full root
@@ -54,7 +54,73 @@ Theorem C07_updates_carry_prev_path : forall H S ss r ns p h blob prev,
 Proof. exact updates_carry_prev_path. Qed.
 Print Assumptions C07_updates_carry_prev_path.
 
+(* opTracer (cancel-out rule) over ALL event lists that insert only where no node
+   is and delete only where one is: deletes = present at the start and absent now,
+   inserts = absent at the start and present now — whatever the interleaving of
+   deletions and re-insertions *)
+Theorem C07_tracer_spec : forall pres ev p,
+  consistent pres ev ->
+  am_has p (tr_del (trace_evs tr_empty ev)) = pres p && negb (pres_after pres ev p) /\
+  am_has p (tr_ins (trace_evs tr_empty ev)) = negb (pres p) && pres_after pres ev p.
+Proof. exact tracer_spec. Qed.
+Print Assumptions C07_tracer_spec.
+
+(* Trie.deletedNodes = exactly the paths that held a node at the start, hold none
+   now, and whose node was read from the store *)
+Theorem C07_deleted_nodes_spec : forall pres ev p,
+  consistent pres ev ->
+  let tr := trace_evs tr_empty ev in
+  (In p (deleted_nodes tr) <->
+   pres p = true /\ pres_after pres ev p = false /\ am_has p (tr_pv tr) = true).
+Proof. exact deleted_nodes_spec. Qed.
+Print Assumptions C07_deleted_nodes_spec.
+
+(* TARGET (DESIGN.md) commit_exact_path :
+     apply nodeset (nodes_of told) = nodes_of tnew      (path scheme; no stale node, none missing)
+   PROVED PART, for every session history: the store after applying the set holds
+   the written blob (carrying its hash) at every written path, nothing at every
+   deleted path, each previous value is what the store held there, and every
+   other path is untouched.
+   MISSING (shown by the correspondence check and the Go oracle only: the
+   keyspace after applying equals a from-scratch build, and the tracer sets are
+   compared on every case): that the written/deleted paths are EXACTLY the
+   positions whose hashed node changed — i.e. that trie.go's insert/delete emit
+   events [consistent] with node presence (hypothesis of C07_tracer_spec), that
+   clean (skipped) nodes are unchanged, and that paths below unresolved hash
+   nodes are untouched. *)
+Theorem C07_commit_exact_path_partial : forall H S ss r ns,
+  reach H PathScheme S ss -> commit H ss = Some (r, Some ns) ->
+  forall p,
+    match am_get p ns with
+    | Some (Upd h b prev) =>
+        am_get p (apply_nodeset PathScheme ns S) = Some b /\ h = H b /\
+        (prev = [] \/ am_get p S = Some prev)
+    | Some (Del prev) =>
+        am_get p (apply_nodeset PathScheme ns S) = None /\ prev <> [] /\ am_get p S = Some prev
+    | None => am_get p (apply_nodeset PathScheme ns S) = am_get p S
+    end.
+Proof. exact commit_applied_path. Qed.
+Print Assumptions C07_commit_exact_path_partial.
+
+(* TARGET commit_reads_back :
+     forall k, get (open root' (apply nodeset store)) k = get tnew k
+   PROVED PART: the store after applying holds, at the empty path, the encoding of
+   the in-memory new root and its hash is the returned root (trie.New(root') finds
+   the node it asks for); together with C07_collapse_preserves_encoding every
+   child reference inside a written blob is the hash of the child's own blob.
+   MISSING (correspondence + Go oracle: the reopened trie reads and iterates
+   exactly the reference map): the induction down the reopened trie, which needs
+   decode_node (node_enc n) = n for the written nodes and the same session
+   invariant as above. *)
+Theorem C07_commit_reads_back_partial : forall H, (forall x, length (H x) = 32%nat) ->
+  forall S ss r ns, commit H ss = Some (r, Some ns) -> is_sf (s_root ss) = true ->
+  exists e, am_get [] (apply_nodeset PathScheme ns S) = Some e /\ H e = r /\
+            node_enc H (s_root ss) = Some e /\ hash_root H (s_root ss) = Some r.
+Proof. exact commit_root_readable. Qed.
+Print Assumptions C07_commit_reads_back_partial.
+
 (* the hypotheses are met: a two-generation history over a path-scheme store whose
-   second commit returns deletions with previous values *)
-Example C07_nonvacuous : c07_example_ok = true.
+   second commit returns deletions with previous values, and whose events are
+   [consistent] with the stored node positions *)
+Example C07_nonvacuous : c07_example_ok && ex_tracer_ok = true.
 Proof. vm_compute. reflexivity. Qed.
